@@ -205,9 +205,9 @@ def run(ctx):
     # everything once it has been taken out. A still-used scan that counts the removed mapping keeps an unjustified key
     # down; a still-shadowed scan that misses a remaining mapping hands a consumed trigger key back to pass-through.
     ck.ob("C02-T1", MOD + "remove_mapping", "still-used-scan-never-counts-the-mapping-being-removed", R.covers("used") in ("exact", "subset"),
-          detail="removal %s the sweep, scan %s index i" % (R.am_removal, "skips" if R.excl.get("used") else "does not skip"))
+          detail="removal %s the sweep, scan %s" % (R.am_removal, R.scan_text("used")))
     ck.ob("C02-T1", MOD + "remove_mapping", "still-shadowed-scan-sees-every-remaining-mapping", R.covers("shadowed") in ("exact", "superset"),
-          detail="removal %s the sweep, scan %s index i: after the removal index i names a different, remaining mapping" % (R.am_removal, "skips" if R.excl.get("shadowed") else "does not skip"))
+          detail="removal %s the sweep, scan %s (after the removal index i names a different, remaining mapping)" % (R.am_removal, R.scan_text("shadowed")))
     outcomes = set()
     for val, outcome, site in R.rows:
         want = ktloops.remove_mapping_spec(val)
